@@ -3,6 +3,7 @@ import LassoProofs.Lemmas.SerdeT
 import LassoModel.Extracted
 import LassoProofs.Lemmas.ConcEffects
 import LassoProofs.Lemmas.ConcSeq
+import LassoProofs.Lemmas.Config
 /-
   C03 — concurrent interning is atomic: one key per string under every schedule.
 
@@ -231,5 +232,12 @@ theorem solo_calls_are_sequential_model (sh : Bytes → Nat) (env : Env) (s : CS
           (run sh t.N s (List.replicate n 0)).log = (0, c, resOf (t.tryInternStatic env i).2) :: s.log) :=
   ⟨fun ht => solo_intern_is_sequential sh env s t hR hI x rest ht,
    fun i hp ht => solo_intern_static_is_sequential sh env s t hR hI i x hp rest ht⟩
+
+/-- The code this file's theorems are about is the same under every feature configuration: the regenerated
+census of conditional compilation contains import blocks, whole serde impls, optional-dependency impls and
+module declarations only, and no gate inside any function body (`Lemmas/Config.lean`). -/
+theorem same_code_under_every_feature_configuration :
+    (Extracted.cfgGates.all fun g => g.kind != .other) = true ∧ Extracted.bodyGates.isEmpty = true :=
+  Lasso.one_code_base_for_all_configurations
 
 end Lasso.C03
